@@ -6,7 +6,7 @@ def gen_program(rng, nops):
     ops = []
     handles = []; guards = {}; futures = []
     nh = 0; ng = 0; nf = 0
-    dflt = {}
+    dflt = {}; held = {}
     for t in range(nthreads):
         c = rng.choice(['1', '2', '1', '-'])
         ops.append('sd %d %s' % (t, c)); dflt[t] = c
@@ -35,12 +35,20 @@ def gen_program(rng, nops):
             nh += 1; ops.append('cu %d %d' % (t, nh)); handles.append(nh)
         elif r < 0.88 and handles:
             h = rng.choice(handles); handles.remove(h); nh += 1; ops.append('oc %d %d %d' % (t, h, nh)); handles.append(nh)
-        elif r < 0.92 and handles:
-            h = rng.choice(handles); handles.remove(h); nf += 1; ops.append('in %d %d' % (h, nf)); futures.append(nf)
-        elif r < 0.96 and futures:
+        elif r < 0.93 and handles:
+            h = rng.choice(handles); handles.remove(h); nf += 1
+            if handles and rng.random() < 0.5:
+                # the inner future owns a span handle of its own (released when the future is dropped)
+                k = rng.choice(handles); handles.remove(k); held[nf] = k
+                ops.append('in %d %d %d' % (h, nf, k))
+            else:
+                ops.append('in %d %d' % (h, nf))
+            futures.append(nf)
+        elif r < 0.955 and futures:
             ops.append('po %d %d' % (t, rng.choice(futures)))
-        elif r < 0.98 and futures:
-            f = rng.choice(futures); futures.remove(f); ops.append('df %d %d' % (t, f))
+        elif r < 0.985 and futures:
+            f = rng.choice(futures); futures.remove(f)
+            ops.append('df %d %d %d' % (t, f, held[f]) if f in held else 'df %d %d' % (t, f))
         else:
             c = rng.choice(['1', '2', '-']); ops.append('sd %d %s' % (t, c)); dflt[t] = c
     return ' ; '.join(ops)
@@ -87,7 +95,7 @@ PROPERTY = {
     'manifest': {
         'text': "Lean 4 theorems over every finite program of the modelled Span API (new/clone/drop, entered/exit/guard drop in any order, in_scope, record, follows_from, "
                 "Span::current, or_current, Instrumented polled and dropped anywhere, any thread, any default incl. a foreign one): for every span, "
-                "#new + #clone_span - #try_close in the collector log equals the number of live owners (refcount, by an invariant through all 15 operations), the calls of drop/enter/exit/poll are a function of the handle alone "
+                "#new + #clone_span - #try_close in the collector log equals the number of live owners (refcount, by an invariant through all 16 operations, including dropping an Instrumented future whose inner future owns a span handle: future_drop_releases_inner), the calls of drop/enter/exit/poll are a function of the handle alone "
                 "(own_collector: the thread default does not occur), operations on a disabled span cause no call (disabled_silent). Enter/exit balance per thread and silence after the last close are decided per program by the judge on the "
                 "observed log (their unbounded proofs are not yet in the theorem file). "
                 "The hand-written model is compared call-for-call with the real tracing crate under recording collectors, and the observed log is judged by the clauses directly.",
@@ -98,7 +106,7 @@ PROPERTY = {
     'lean_module': 'TracingModel.Props.C03',
     'namespace': 'C03',
     'units': [],
-    'required_theorems': ['C03.refcount', 'C03.step_rc', 'C03.closes_match_when_gone', 'C03.disabled_silent', 'C03.own_collector'],
+    'required_theorems': ['C03.refcount', 'C03.step_rc', 'C03.closes_match_when_gone', 'C03.disabled_silent', 'C03.own_collector', 'C03.future_drop_releases_inner'],
     'streams': [Stream('prog', 'h_span', gen=gen, nontrivial=nontrivial)],
     'rule': 'one case = one program of 15-60 ops over <=3 threads, two recording collectors (one rejecting DEBUG spans) or none as each thread\'s default, handles moved freely between threads; '
             'non-trivial = >=2 spans created, enters and closes present and either both collectors used or a clone_span observed',
